@@ -169,7 +169,8 @@ def distAcc [SphereNum α] (acc : α) : Space α → St α → St α → α
 end
 
 mutual
-/-- `getMaximumExtent` -/
+/-- `getMaximumExtent` (since bb83952a6, F360: the compound counts every POSITIVELY weighted component, as `distance`
+does; the guard only avoids `0 · ∞`) -/
 def maxExtent : Space α → α
   | .rv lo hi => rvExtent lo hi
   | .so2 => Num.pi
@@ -177,15 +178,28 @@ def maxExtent : Space α → α
   | .time b lo hi => timeExtent b lo hi
   | .disc lo hi => discExtent lo hi
   | .cnil => Num.ofNat 0
-  | .ccons w h t => extentAcc (if eps ≤ w then Num.ofNat 0 + w * maxExtent h else Num.ofNat 0) t
+  | .ccons w h t => extentAcc (if Num.ofNat 0 < w then Num.ofNat 0 + w * maxExtent h else Num.ofNat 0) t
   | .torus _ _ => cmp2 Num.pi Num.pi
   | .mobius imax _ => cmp2 Num.pi (rvExtent [-imax] [imax])
   | .klein => cmp2 (rvExtent [Num.ofNat 0] [Num.pi]) Num.pi
   | .sphere r => Num.pi * r                         -- SphereStateSpace::getMaximumExtent (3ad69d0eb: `pi * radius_`)
   | .wrap s => maxExtent s
-/-- `if (weights_[i] >= epsilon) e += weights_[i] * components_[i]->getMaximumExtent()` -/
+/-- `if (weights_[i] > 0.0) e += weights_[i] * components_[i]->getMaximumExtent()` -/
 def extentAcc (acc : α) : Space α → α
-  | .ccons w h t => extentAcc (if eps ≤ w then acc + w * maxExtent h else acc) t
+  | .ccons w h t => extentAcc (if Num.ofNat 0 < w then acc + w * maxExtent h else acc) t
+  | _ => acc
+end
+
+mutual
+/-- the FORMER `getMaximumExtent` (before bb83952a6): `if (weights_[i] >= epsilon)` — a component with a weight in
+`(0, 2⁻⁵²)` was dropped from the extent although `distance` counts it (F360).  Kept as the witness of the defect and for
+trees under test that still have the old guard (the check selects the variant from the source text). -/
+def maxExtentOld : Space α → α
+  | .ccons w h t => extentAccOld (if eps ≤ w then Num.ofNat 0 + w * maxExtentOld h else Num.ofNat 0) t
+  | .wrap s => maxExtentOld s
+  | s => maxExtent s
+def extentAccOld (acc : α) : Space α → α
+  | .ccons w h t => extentAccOld (if eps ≤ w then acc + w * maxExtentOld h else acc) t
   | _ => acc
 end
 
